@@ -79,7 +79,7 @@ func crossLaplacianSerial(f func(x, y []float64) float64, x, y []float64, stenci
 		// Copy x and y in case they are modified during the call.
 		copy(xCopy, x)
 		copy(yCopy, y)
-		return f(x, y)
+		return f(xCopy, yCopy)
 	}
 	origin := getOrigin(originKnown, originValue, fo, stencil)
 
